@@ -1,5 +1,23 @@
 package main
 
+import "fmt"
+
 var registry = map[string][]func(*Report){}
 
-func runThoroughExtras(r *Report, rules []func(*Report), repo string) {}
+// runThoroughExtras: second configuration of the thorough tier — the tree is loaded again under
+// GOARCH=386 (covers files behind build constraints) and the same rules are applied; anything that
+// is not discharged there is added to the report.
+func runThoroughExtras(r *Report, rules []func(*Report), repo string) {
+	p2 := Load(repo, "386")
+	r2 := NewReport(r.Prop, r.Tier, p2, &Known{})
+	runRules(r2, rules)
+	n := 0
+	for _, o := range r2.Obls {
+		n++
+		if o.Verdict == "violated" || o.Verdict == "undecided" {
+			o2 := *o
+			r.add(&o2)
+		}
+	}
+	r.Extra("second_configuration", fmt.Sprintf("GOARCH=386: %d packages, %d obligations re-examined", len(p2.Pkgs), n))
+}
